@@ -212,7 +212,7 @@ def shouldSkipLine (cfg : Cfg) (m : M) : Except String Bool :=
 
 /-- `StateMachine::emit_line_unchanged` -/
 def emitLineUnchanged (m : M) (l : L) : M :=
-  direct (emit m) [{ kind := .raw, text := l.raw, src := m.n }]
+  direct (emit (flushMP m)) [{ kind := .raw, text := l.raw, src := m.n }]
 
 /-- `write_generic_diff_header_header_line` -/
 def writeGeneric (cfg : Cfg) (m : M) (text raw : Str) : M :=
@@ -279,26 +279,34 @@ def handleDiffHeaderDiff : Handler := fun cfg m l =>
 
 /-- `should_write_generic_diff_header_header_line` -/
 def shouldWriteGeneric (cfg : Cfg) (m : M) (l : L) : Bool × M :=
-  if cfg.colorOnly then (true, writeGeneric cfg m l.text l.raw) else (false, m)
+  if cfg.colorOnly then (true, writeGeneric cfg (emit (flushMP m)) l.text l.raw) else (false, m)
 
 def headerLineTest (m : M) : Bool := isDiffHeader m.st || m.source = .diffUnified
 
+/-- the file-name bookkeeping of `handle_diff_header_file_operation_line` -/
+def fileOpUpdate (m : M) (ev : FileEvent) (nm : Str) : M :=
+  match ev with
+  | .removed => { m with minusFile := nm, plusFile := Markers.devNull, minusEvent := .change,
+                         plusEvent := .change, currentPair := some (nm, Markers.devNull) }
+  | .added => { m with minusFile := Markers.devNull, plusFile := nm, minusEvent := .change,
+                       plusEvent := .change, currentPair := some (Markers.devNull, nm) }
+  | _ => m
+
+def fileOpFinish (cfg : Cfg) (m1 : M) (l : L) : Except String (Bool × M) :=
+  if (shouldWriteGeneric cfg m1 l).1 then .ok (true, (shouldWriteGeneric cfg m1 l).2)
+  else
+    match shouldHandle cfg m1 with
+    | .error e => .error e
+    | .ok h => .ok (h && m1.handledPair ≠ m1.currentPair, m1)
+
 def handleFileOperation : Handler := fun cfg m l =>
-  if !(headerLineTest m && startsWithAny l.text Markers.fileOperationLine) then .ok (false, m) else do
-    let (_, ev) ← parseDiffHeaderLine l.text (m.source = .gitDiff)
-    let name ← repeatedFilePath m.diffLine m.diffLineG
-    let nm := name.getD []
-    let m1 := match ev with
-      | .removed => { m with minusFile := nm, plusFile := Markers.devNull, minusEvent := .change,
-                             plusEvent := .change, currentPair := some (nm, Markers.devNull) }
-      | .added => { m with minusFile := Markers.devNull, plusFile := nm, minusEvent := .change,
-                           plusEvent := .change, currentPair := some (Markers.devNull, nm) }
-      | _ => m
-    let (w, m2) := shouldWriteGeneric cfg m1 l
-    if w then pure (true, m2)
-    else do
-      let h ← shouldHandle cfg m2
-      pure (h && m2.handledPair ≠ m2.currentPair, m2)
+  if !(headerLineTest m && startsWithAny l.text Markers.fileOperationLine) then .ok (false, m) else
+    match parseDiffHeaderLine l.text (m.source = .gitDiff) with
+    | .error e => .error e
+    | .ok (_, ev) =>
+      match repeatedFilePath m.diffLine m.diffLineG with
+      | .error e => .error e
+      | .ok name => fileOpFinish cfg (fileOpUpdate m ev (name.getD [])) l
 
 /-- `AmbiguousDiffMinusCounter::three_dashes_expected` -/
 def threeDashesExpected (c : Int) : Bool := if c > -4096 then c ≤ 0 else true
@@ -309,28 +317,35 @@ def minusLineTest (m : M) (l : L) : Bool :=
       || startsWithAny l.text (Markers.minusLine.drop 1))
 
 def handleMinusLine : Handler := fun cfg m l =>
-  if !minusLineTest m l then .ok (false, m) else do
-    let (path, ev) ← parseDiffHeaderLine l.text (m.source = .gitDiff)
-    let m1 := { m with minusFile := path, minusEvent := ev }
-    let m2 := if m.source = .diffUnified then { m1 with st := .diffHeader .unified } else m1
-    let (w, m3) := shouldWriteGeneric cfg (flushMP m2) l
-    pure (w, m3)
+  if !minusLineTest m l then .ok (false, m) else
+    match parseDiffHeaderLine l.text (m.source = .gitDiff) with
+    | .error e => .error e
+    | .ok (path, ev) =>
+      let m1 := { m with minusFile := path, minusEvent := ev,
+                         st := if m.source = .diffUnified then .diffHeader .unified else m.st }
+      .ok (shouldWriteGeneric cfg (flushMP m1) l)
 
 def plusLineTest (m : M) (l : L) : Bool :=
   headerLineTest m && startsWithAny l.text Markers.plusLine
 
+def plusLineFinish (cfg : Cfg) (m1 : M) (l : L) : Except String (Bool × M) :=
+  if (shouldWriteGeneric cfg m1 l).1 then .ok (true, (shouldWriteGeneric cfg m1 l).2)
+  else
+    match shouldHandle cfg m1 with
+    | .error e => .error e
+    | .ok h =>
+      if h ∧ m1.handledPair ≠ m1.currentPair then
+        let m3 := handleHeaderLine cfg (emit m1) (m1.source = .diffUnified)
+        .ok (false, { m3 with handledPair := m3.currentPair })
+      else .ok (false, m1)
+
 def handlePlusLine : Handler := fun cfg m l =>
-  if !plusLineTest m l then .ok (false, m) else do
-    let (path, ev) ← parseDiffHeaderLine l.text (m.source = .gitDiff)
-    let m1 := { m with plusFile := path, plusEvent := ev, currentPair := some (m.minusFile, path) }
-    let (w, m2) := shouldWriteGeneric cfg (flushMP m1) l
-    if w then pure (true, m2)
-    else do
-      let h ← shouldHandle cfg m2
-      if h ∧ m2.handledPair ≠ m2.currentPair then
-        let m3 := handleHeaderLine cfg (emit m2) (m2.source = .diffUnified)
-        pure (false, { m3 with handledPair := m3.currentPair })
-      else pure (false, m2)
+  if !plusLineTest m l then .ok (false, m) else
+    match parseDiffHeaderLine l.text (m.source = .gitDiff) with
+    | .error e => .error e
+    | .ok (path, ev) =>
+      plusLineFinish cfg
+        (flushMP { m with plusFile := path, plusEvent := ev, currentPair := some (m.minusFile, path) }) l
 
 def isMergeConflict : State → Bool
   | .mergeConflict .. => true
@@ -339,47 +354,59 @@ def isMergeConflict : State → Bool
 /-- `AmbiguousDiffMinusCounter::count_from` (isize conversion of a usize) -/
 def countFrom (lines : Nat) : Int := if lines < 2 ^ 63 then (lines : Int) else -4096
 
+def hunkHeaderDiffType (m : M) (l : L) : DiffType :=
+  match m.st with
+  | .diffHeader (.combined .unknown false) =>
+    .combined (.number ((l.text.takeWhile (· = '@')).length - 1)) false
+  | .diffHeader dt | .hunkMinus dt | .hunkZero dt | .hunkPlus dt => dt
+  | _ => .unified
+
+def hunkHeaderCounter (m : M) (hh : HunkHeader) : Int :=
+  if m.counter > -4096 then
+    match hh.coords with
+    | (_, ml) :: _ :: _ => countFrom ml
+    | _ => m.counter
+  else m.counter
+
 def handleHunkHeader : Handler := fun _ m l =>
-  if !(startsWith l.text Markers.hunkHeader && !isMergeConflict m.st) then .ok (false, m) else do
-    match ← parseHunkHeader l.text with
-    | none => pure (false, m)
-    | some hh =>
-      let dt : DiffType := match m.st with
-        | .diffHeader (.combined .unknown false) =>
-          .combined (.number ((l.text.takeWhile (· = '@')).length - 1)) false
-        | .diffHeader dt | .hunkMinus dt | .hunkZero dt | .hunkPlus dt => dt
-        | _ => .unified
-      let counter := if m.counter > -4096 then
-          match hh.coords with
-          | (_, ml) :: _ :: _ => countFrom ml
-          | _ => m.counter
-        else m.counter
-      pure (true, { m with counter := counter, st := .hunkHeader dt hh l.text l.raw m.n })
+  if !(startsWith l.text Markers.hunkHeader && !isMergeConflict m.st) then .ok (false, m) else
+    match parseHunkHeader l.text with
+    | .error e => .error e
+    | .ok none => .ok (false, m)
+    | .ok (some hh) =>
+      .ok (true, { m with counter := hunkHeaderCounter m hh,
+                          st := .hunkHeader (hunkHeaderDiffType m l) hh l.text l.raw m.n })
+
+def modeInfoText (cfg : Cfg) (oldMode suf : Str) : Str :=
+  if oldMode = "100644".toList ∧ suf = "100755".toList then "mode +x".toList
+  else if oldMode = "100755".toList ∧ suf = "100644".toList then "mode -x".toList
+  else "mode ".toList ++ oldMode ++ [' '] ++ cfg.labels.rightArrow ++ [' '] ++ suf
 
 def handleModeLine : Handler := fun cfg m l =>
   match stripPrefix l.text Markers.oldMode with
-  | some suf => do
-    let m1 := { m with st := .diffHeader .unified }
-    if (← shouldHandle cfg m1) ∧ ¬ cfg.colorOnly then pure (true, { m1 with modeInfo := suf })
-    else pure (false, m1)
+  | some suf =>
+    match shouldHandle cfg { m with st := .diffHeader .unified } with
+    | .error e => .error e
+    | .ok sh =>
+      if sh ∧ ¬ cfg.colorOnly then .ok (true, { m with st := .diffHeader .unified, modeInfo := suf })
+      else .ok (false, { m with st := .diffHeader .unified })
   | none =>
     match stripPrefix l.text Markers.newMode with
-    | some suf => do
-      let m1 := { m with st := .diffHeader .unified }
-      if (← shouldHandle cfg m1) ∧ ¬ cfg.colorOnly ∧ m1.modeInfo ≠ [] then
-        let info : Str :=
-          if m1.modeInfo = "100644".toList ∧ suf = "100755".toList then "mode +x".toList
-          else if m1.modeInfo = "100755".toList ∧ suf = "100644".toList then "mode -x".toList
-          else "mode ".toList ++ m1.modeInfo ++ [' '] ++ cfg.labels.rightArrow ++ [' '] ++ suf
-        pure (true, { m1 with modeInfo := info })
-      else pure (false, m1)
+    | some suf =>
+      match shouldHandle cfg { m with st := .diffHeader .unified } with
+      | .error e => .error e
+      | .ok sh =>
+        if sh ∧ ¬ cfg.colorOnly ∧ m.modeInfo ≠ [] then
+          .ok (true, { m with st := .diffHeader .unified, modeInfo := modeInfoText cfg m.modeInfo suf })
+        else .ok (false, { m with st := .diffHeader .unified })
     | none => .ok (false, m)
 
 /-- `handle_additional_cases` -/
-def handleAdditionalCases (cfg : Cfg) (m : M) (l : L) (to : State) : Except String (Bool × M) := do
-  let m1 := { flushMP m with st := to }
-  if ← shouldHandle cfg m1 then pure (true, writeGeneric cfg (emit m1) l.text l.raw)
-  else pure (false, m1)
+def handleAdditionalCases (cfg : Cfg) (m : M) (l : L) (to : State) : Except String (Bool × M) :=
+  match shouldHandle cfg { flushMP m with st := to } with
+  | .error e => .error e
+  | .ok true => .ok (true, writeGeneric cfg (emit { flushMP m with st := to }) l.text l.raw)
+  | .ok false => .ok (false, { flushMP m with st := to })
 
 def binarySuffix : Str := " (binary file)".toList
 
@@ -406,12 +433,14 @@ def isHunkHeader : State → Bool
   | .hunkHeader .. => true
   | _ => false
 
-def handleSubmoduleShort : Handler := fun cfg m l =>
-  let test := (isHunkHeader m.st && startsWith l.text Markers.submoduleShortMinus)
+def submoduleShortTest (m : M) (l : L) : Bool :=
+  (isHunkHeader m.st && startsWith l.text Markers.submoduleShortMinus)
     || (match m.st with
         | .submoduleShort _ => startsWith l.text Markers.submoduleShortPlus
         | _ => false)
-  if !test || cfg.colorOnly then .ok (false, m)
+
+def handleSubmoduleShort : Handler := fun cfg m l =>
+  if !submoduleShortTest m l || cfg.colorOnly then .ok (false, m)
   else
     match l.submodule with
     | none => .ok (false, m)
@@ -419,7 +448,7 @@ def handleSubmoduleShort : Handler := fun cfg m l =>
       match m.st with
       | .hunkHeader .. => .ok (true, { m with st := .submoduleShort commit })
       | .submoduleShort minusCommit =>
-        .ok (true, direct (emit m)
+        .ok (true, direct (emit (flushMP m))
           [{ kind := .submodule, text := minusCommit.take 12 ++ ['.', '.'] ++ commit.take 12, src := m.n }])
       | _ => .ok (true, m)
 
@@ -515,22 +544,27 @@ def hunkHeaderText (cfg : Cfg) (m : M) (hh : HunkHeader) (line : Str) : Except S
       let loc := if fwln ≠ [] then fwln ++ [':'] ++ (if body = [] then [' '] else []) else []
       .ok (some (label ++ loc ++ Text.expand cfg.tab body))
 
-/-- `emit_hunk_header_line` -/
-def emitHunkHeader (cfg : Cfg) (m : M) (hh : HunkHeader) (line raw : Str) (src : Nat) :
-    Except String M := do
-  let m1 := emit (flushMP m)
+/-- rows of `emit_hunk_header_line` (written directly after flushing and emitting) -/
+def hunkHeaderRows (cfg : Cfg) (m1 : M) (hh : HunkHeader) (line raw : Str) (src : Nat) :
+    Except String (List Row) :=
   let st := cfg.hunkHeaderStyle
   if st.isRaw then
-    let blank : List Row := if st.deco ≠ .none then [{ kind := .blank, text := [], src := src }] else []
-    pure (direct m1 (blank ++ drawRows st .hunkHeader line raw [] src))
-  else if st.isOmitted then
-    pure (direct m1 [{ kind := .blank, text := [], src := src }])
+    .ok ((if st.deco ≠ .none then [{ kind := .blank, text := [], src := src }] else []) ++
+          drawRows st .hunkHeader line raw [] src)
+  else if st.isOmitted then .ok [{ kind := .blank, text := [], src := src }]
   else
     let blank : List Row := if cfg.colorOnly then [] else [{ kind := .blank, text := [], src := src }]
-    match ← hunkHeaderText cfg m1 hh line with
-    | none => pure (direct m1 blank)
-    | some t =>
-      pure (direct m1 (blank ++ drawRows { st with isRaw := false } .hunkHeader t t [] src))
+    match hunkHeaderText cfg m1 hh line with
+    | .error e => .error e
+    | .ok none => .ok blank
+    | .ok (some t) => .ok (blank ++ drawRows { st with isRaw := false } .hunkHeader t t [] src)
+
+/-- `emit_hunk_header_line` -/
+def emitHunkHeader (cfg : Cfg) (m : M) (hh : HunkHeader) (line raw : Str) (src : Nat) :
+    Except String M :=
+  match hunkHeaderRows cfg (emit (flushMP m)) hh line raw src with
+  | .error e => .error e
+  | .ok rows => .ok (direct (emit (flushMP m)) rows)
 
 def isHunkState : State → Bool
   | .hunkHeader .. | .hunkZero _ | .hunkMinus _ | .hunkPlus _ => true
@@ -540,32 +574,53 @@ def isHunkPlus : State → Bool
   | .hunkPlus _ => true
   | _ => false
 
+/-- first part of `handle_hunk_line`: bound the line buffers, write a pending hunk header -/
+def hunkLinePre (cfg : Cfg) (m : M) : Except String M :=
+  let m1 := if m.minus.length > cfg.bufSize ∨ m.plus.length > cfg.bufSize then flushMP m else m
+  match m1.st with
+  | .hunkHeader _ hh line raw src => emitHunkHeader cfg m1 hh line raw src
+  | _ => .ok m1
+
+/-- second part: classify the line and buffer / paint it -/
+def hunkLinePush (cfg : Cfg) (m2 : M) (l : L) : Except String M :=
+  match newLineState m2.st l with
+  | .error e => .error e
+  | .ok (some (.minus, dt)) =>
+    match nParents dt with
+    | .error e => .error e
+    | .ok n =>
+      let m' := if isHunkPlus m2.st then flushMP m2 else m2
+      .ok { m' with minus := m'.minus ++ [{ kind := .minus, pre := paintedPrefix cfg .minus dt,
+                                            text := prepare cfg n l, src := m2.n }],
+                    counter := m'.counter - 1, st := .hunkMinus dt }
+  | .ok (some (.plus, dt)) =>
+    match nParents dt with
+    | .error e => .error e
+    | .ok n =>
+      .ok { m2 with plus := m2.plus ++ [{ kind := .plus, pre := paintedPrefix cfg .plus dt,
+                                          text := prepare cfg n l, src := m2.n }],
+                    st := .hunkPlus dt }
+  | .ok (some (.zero, dt)) =>
+    match nParents dt with
+    | .error e => .error e
+    | .ok n =>
+      let m' := flushMP m2
+      .ok { m' with buf := m'.buf ++ [{ kind := .zero, text := paintedPrefix cfg .zero dt ++ prepare cfg n l,
+                                        src := m2.n }],
+                    counter := m'.counter - 1, st := .hunkZero dt }
+  | .ok none =>
+    let m' := flushMP m2
+    .ok { m' with buf := m'.buf ++ [{ kind := .other, text := Text.expand cfg.tab l.raw, src := m2.n }],
+                  st := .hunkZero .unified }
+
 def handleHunkLine : Handler := fun cfg m l =>
-  if !isHunkState m.st then .ok (false, m) else do
-    let m1 := if m.minus.length > cfg.bufSize ∨ m.plus.length > cfg.bufSize then flushMP m else m
-    let m2 ← match m1.st with
-      | .hunkHeader _ hh line raw src => emitHunkHeader cfg m1 hh line raw src
-      | _ => pure m1
-    let m3 ← match ← newLineState m2.st l with
-      | some (.minus, dt) => do
-        let m' := if isHunkPlus m2.st then flushMP m2 else m2
-        let n ← nParents dt
-        let h : HLine := { kind := .minus, pre := paintedPrefix cfg .minus dt, text := prepare cfg n l, src := m.n }
-        pure { m' with minus := m'.minus ++ [h], counter := m'.counter - 1, st := .hunkMinus dt }
-      | some (.plus, dt) => do
-        let n ← nParents dt
-        let h : HLine := { kind := .plus, pre := paintedPrefix cfg .plus dt, text := prepare cfg n l, src := m.n }
-        pure { m2 with plus := m2.plus ++ [h], st := .hunkPlus dt }
-      | some (.zero, dt) => do
-        let m' := flushMP m2
-        let n ← nParents dt
-        let h : HLine := { kind := .zero, pre := paintedPrefix cfg .zero dt, text := prepare cfg n l, src := m.n }
-        pure { m' with buf := m'.buf ++ [h.row], counter := m'.counter - 1, st := .hunkZero dt }
-      | none =>
-        let m' := flushMP m2
-        pure { m' with buf := m'.buf ++ [{ kind := .other, text := Text.expand cfg.tab l.raw, src := m.n }],
-                       st := .hunkZero .unified }
-    pure (true, emit m3)
+  if !isHunkState m.st then .ok (false, m) else
+    match hunkLinePre cfg m with
+    | .error e => .error e
+    | .ok m2 =>
+      match hunkLinePush cfg m2 l with
+      | .error e => .error e
+      | .ok m3 => .ok (true, emit m3)
 
 -- merge conflicts ------------------------------------------------------------
 
@@ -599,25 +654,38 @@ def paintMergeConflict (cfg : Cfg) (m : M) (mp : MergeParents) : M :=
   { m4 with mcOurs := [], mcAnc := [], mcTheirs := [], st := .hunkZero (.combined mp false) }
 
 def storeLine (cfg : Cfg) (m : M) (l : L) (c : MCCommit) (mp : MergeParents) (k : RowKind) :
-    Except String M := do
-  let n ← nParents (.combined mp true)
-  let h : HLine := { kind := k, pre := if cfg.keepMarkers then (if k = .minus then ['-'] else ['+']) else [],
-                     text := prepare cfg n l, src := m.n }
-  match c with
-  | .ours => pure { m with mcOurs := m.mcOurs ++ [h] }
-  | .ancestral => pure { m with mcAnc := m.mcAnc ++ [h] }
-  | .theirs => pure { m with mcTheirs := m.mcTheirs ++ [h] }
+    Except String M :=
+  match nParents (.combined mp true) with
+  | .error e => .error e
+  | .ok n =>
+    let h : HLine := { kind := k, pre := if cfg.keepMarkers then (if k = .minus then ['-'] else ['+']) else [],
+                       text := prepare cfg n l, src := m.n }
+    match c with
+    | .ours => .ok { m with mcOurs := m.mcOurs ++ [h] }
+    | .ancestral => .ok { m with mcAnc := m.mcAnc ++ [h] }
+    | .theirs => .ok { m with mcTheirs := m.mcTheirs ++ [h] }
+
+def enterAncestral (m : M) (l : L) (mp : MergeParents) : Option M :=
+  (parseMergeMarker l.text Markers.mcAncestral).map fun c =>
+    { m with st := .mergeConflict mp .ancestral, mcNameAnc := some c }
+
+def enterTheirs (m : M) (l : L) (mp : MergeParents) : Option M :=
+  if startsWith l.text Markers.mcTheirs then some { m with st := .mergeConflict mp .theirs } else none
+
+def exitMergeConflict (cfg : Cfg) (m : M) (l : L) (mp : MergeParents) : Option M :=
+  (parseMergeMarker l.text Markers.mcEnd).map fun c =>
+    paintMergeConflict cfg { m with mcNameTheirs := some c } mp
+
+def storeOr (o : Option M) (alt : Except String M) : Except String (Bool × M) :=
+  match o with
+  | some m' => .ok (true, m')
+  | none =>
+    match alt with
+    | .error e => .error e
+    | .ok m' => .ok (true, m')
 
 def handleMergeConflict : Handler := fun cfg m l =>
   if cfg.colorOnly ∨ ¬ cfg.mergeConflicts then .ok (false, m) else
-  let enterAncestral (mp : MergeParents) : Option M :=
-    (parseMergeMarker l.text Markers.mcAncestral).map fun c =>
-      { m with st := .mergeConflict mp .ancestral, mcNameAnc := some c }
-  let enterTheirs (mp : MergeParents) : Option M :=
-    if startsWith l.text Markers.mcTheirs then some { m with st := .mergeConflict mp .theirs } else none
-  let exit (mp : MergeParents) : Option M :=
-    (parseMergeMarker l.text Markers.mcEnd).map fun c =>
-      paintMergeConflict cfg { m with mcNameTheirs := some c } mp
   match m.st with
   | .hunkHeader (.combined mp false) .. | .hunkMinus (.combined mp false)
   | .hunkZero (.combined mp false) | .hunkPlus (.combined mp false) =>
@@ -625,17 +693,12 @@ def handleMergeConflict : Handler := fun cfg m l =>
     | some c => .ok (true, { flushMP m with st := .mergeConflict mp .ours, mcNameOurs := some c })
     | none => .ok (false, m)
   | .mergeConflict mp .ours =>
-    match (enterAncestral mp <|> enterTheirs mp <|> exit mp) with
-    | some m' => .ok (true, m')
-    | none => do pure (true, ← storeLine cfg m l .ours mp .plus)
+    storeOr (enterAncestral m l mp <|> enterTheirs m l mp <|> exitMergeConflict cfg m l mp)
+      (storeLine cfg m l .ours mp .plus)
   | .mergeConflict mp .ancestral =>
-    match (enterTheirs mp <|> exit mp) with
-    | some m' => .ok (true, m')
-    | none => do pure (true, ← storeLine cfg m l .ancestral mp .minus)
+    storeOr (enterTheirs m l mp <|> exitMergeConflict cfg m l mp) (storeLine cfg m l .ancestral mp .minus)
   | .mergeConflict mp .theirs =>
-    match exit mp with
-    | some m' => .ok (true, m')
-    | none => do pure (true, ← storeLine cfg m l .theirs mp .plus)
+    storeOr (exitMergeConflict cfg m l mp) (storeLine cfg m l .theirs mp .plus)
   | _ => .ok (false, m)
 
 -- the tail of the chain -------------------------------------------------------
@@ -656,7 +719,10 @@ def handleGrep : Handler := fun _ m l =>
     else .ok (true, { direct m1 [{ kind := .grep, text := l.text, src := m.n }] with st := .grep })
   else .ok (false, m1)
 
-def handleShouldSkip : Handler := fun cfg m _ => do pure (← shouldSkipLine cfg m, m)
+def handleShouldSkip : Handler := fun cfg m _ =>
+  match shouldSkipLine cfg m with
+  | .error e => .error e
+  | .ok b => .ok (b, m)
 
 def handleEmitUnchanged : Handler := fun _ m l => .ok (true, emitLineUnchanged m l)
 
